@@ -6,6 +6,7 @@ import Blackbird.Decode
 import Blackbird.Load
 import Blackbird.ErrorListener
 import Blackbird.Unparse
+import Blackbird.Instantiate
 import Blackbird.UnparseTdm
 
 open Blackbird
@@ -56,6 +57,26 @@ def encUnparse (p : Program Float) : String :=
     let lay := List.replicate sc.items.length ((1 : Nat), ([] : List Nat))
     " ".intercalate ((sc.toks ⟨0, 0, 0, 0, [], dev⟩ lay 1).map encTok)
   | .error e => encErr e
+
+/-- SUBSTP: the script with the parameter values substituted (`substPScript`, the object of the
+script-level C04 theorems), as tokens; prefixed by whether the template is in the fragment the
+theorem covers -/
+def encSubstP (text : String) (kwargs : List (String × Val Float)) : String :=
+  match parseText text with
+  | none => "(err syntax)"
+  | some sc =>
+    let ρ : String → Option (Num Float) := fun p =>
+      match dictGet kwargs p with
+      | some (.atom (.num n)) => some n
+      | _ => none
+    let sc' := substPScript ρ sc
+    let dev := match sc'.header.target with
+      | some (n, _) => !isNameText n
+      | none => false
+    let lay := List.replicate sc'.items.length ((1 : Nat), ([] : List Nat))
+    let covered := sc.tplOK && sc.items.all fun it => it.parsL.all fun p => (ρ p).isSome
+    (if covered then "covered " else "outside ") ++
+      " ".intercalate ((sc'.toks ⟨0, 0, 0, 0, [], dev⟩ lay 1).map encTok)
 
 /-- a history of `loads` calls in one process: tables threaded from call to call -/
 def runHistory (fs : FS) : List String → Tables Float → List String → List String
@@ -123,6 +144,12 @@ def handle (line : String) : String :=
           | some k => match decKw k with
                       | none => "bad-kw"
                       | some kwargs => encLoadResult (instantiate p kwargs)
+      | "SUBSTP", [text, kw] =>
+        match sxParse kw with
+        | none => "bad-sx"
+        | some k => match decKw k with
+                    | none => "bad-kw"
+                    | some kwargs => encSubstP text kwargs
       | "GRAPH", [prog] =>
         withProgram prog fun p =>
           let (g, p') := toDiGraph p
